@@ -315,15 +315,27 @@ fn evaluate(
                 let mut ok = true;
                 if !zvx::rv_same(&norm_dicts(v), rv_ref) || t.as_ref().map(|t| t != ty).unwrap_or(false) {
                     ok = false;
-                    acc.violation(
-                        Violation::new(
-                            "value-differs",
-                            format!("{}: real decodes {} but the encoding denotes {}", what(), v.show(), rv_ref.show()),
-                            replay(),
-                        )
-                        .feat("route", route)
-                        .feat("kind", kind(ty)),
-                    );
+                    if std::env::var_os("ZV_TRACE").is_some() {
+                        eprintln!("TRACE value-differs {route} `{}` {} real {} ref {}", ty.sig(), hex(bytes), v.show(), rv_ref.show());
+                    }
+                    let mut viol = Violation::new(
+                        "value-differs",
+                        format!("{}: real decodes {} but the encoding denotes {}", what(), v.show(), rv_ref.show()),
+                        replay(),
+                    )
+                    .feat("route", route)
+                    .feat("kind", kind(ty));
+                    if let (Ty::Dict(k, _), RV::Dict(_, _, got), RV::Dict(_, _, want)) = (ty, v, rv_ref) {
+                        viol = viol.feat("key", k.sig()).feat(
+                            "entries",
+                            match got.len().cmp(&want.len()) {
+                                std::cmp::Ordering::Less => "fewer",
+                                std::cmp::Ordering::Equal => "same-count",
+                                std::cmp::Ordering::Greater => "more",
+                            },
+                        );
+                    }
+                    acc.violation(viol);
                 }
                 if *n != n_ref + hdr_len {
                     ok = false;
